@@ -126,6 +126,45 @@ class FakeModule:
     """a checker-provided stand-in for a stdlib module whose state matters (e.g. random)"""
 
 
+class CGRangesModel:
+    """native model of a cgranges.cgranges() index as the library uses it: add(contig, start, end, label), index(),
+    overlap(contig, start, end) -> (start, end, label) of every stored half-open interval sharing a base with the query,
+    in ascending order of start"""
+    _interp_native_ = True
+
+    def __init__(self):
+        self.iv = []
+        self.indexed = False
+
+    def add(self, ctg, st, en, label):
+        self.iv.append((ctg, st, en, label))
+        self.indexed = False
+
+    def index(self):
+        self.iv.sort(key=lambda x: (x[0], x[1], x[2]))
+        self.indexed = True
+
+    def overlap(self, ctg, st, en):
+        if not self.indexed:
+            raise Uninterpretable("cgranges.overlap before index()")
+        return [(a, b, lab) for c, a, b, lab in self.iv if c == ctg and a < en and st < b]
+
+
+class CGRangesModule(FakeModule):
+    """stand-in for the optional `cgranges` package (with_cgranges(interp) switches the library onto that path)"""
+    _interp_native_ = True
+
+    def cgranges(self):
+        return CGRangesModel()
+
+
+def with_cgranges(interp):
+    """the same interpreter configuration, following the library's HAS_CGRANGES branches through the native model"""
+    interp.overrides["HAS_CGRANGES"] = True
+    interp.overrides["cgranges"] = CGRangesModule()
+    return interp
+
+
 class DDict(dict):
     """collections.defaultdict as modelled by the interpreter (factory is an interpreter callable)"""
     factory = None
